@@ -17,7 +17,7 @@ where
     T::deserialize(Deserializer::new(value.into())?)
 }
 
-macro_rules! deserialize_number {
+macro_rules! deserialize_float {
     ($trait_method:ident, $type:ty, $visitor_method:ident) => {
         fn $trait_method<V>(self, visitor: V) -> Result<V::Value>
         where
@@ -31,6 +31,23 @@ macro_rules! deserialize_number {
     };
 }
 
+macro_rules! deserialize_integer {
+    ($trait_method:ident, $type:ty, $visitor_method:ident) => {
+        fn $trait_method<V>(self, visitor: V) -> Result<V::Value>
+        where
+            V: Visitor<'de>,
+        {
+            match self.0 {
+                KValue::Number(n) => match number_to_i64(n).and_then(|i| <$type>::try_from(i).ok()) {
+                    Some(i) => visitor.$visitor_method(i),
+                    None => Err(Error::OutOfRangeNumber(n, stringify!($type))),
+                },
+                other => unsupported_error("number", &other),
+            }
+        }
+    };
+}
+
 macro_rules! try_deserialize_number {
     ($method:ident) => {
         fn $method<V>(self, visitor: V) -> Result<V::Value>
@@ -38,14 +55,24 @@ macro_rules! try_deserialize_number {
             V: Visitor<'de>,
         {
             match self.0 {
-                KValue::Number(n) => match i64::try_from(n) {
-                    Ok(i) => visitor.visit_i64(i),
-                    Err(_) => Err(Error::OutOfI64RangeNumber(n)),
+                KValue::Number(n) => match number_to_i64(n) {
+                    Some(i) => visitor.visit_i64(i),
+                    None => Err(Error::OutOfI64RangeNumber(n)),
                 },
                 other => unsupported_error("number", &other),
             }
         }
     };
+}
+
+/// The number as an `i64` (floats are truncated), or `None` if it is NaN or outside the i64 range
+fn number_to_i64(n: KNumber) -> Option<i64> {
+    match n {
+        KNumber::I64(i) => Some(i),
+        // -2^63 and 2^63 are exactly representable as f64
+        KNumber::F64(f) if f >= -9223372036854775808.0 && f < 9223372036854775808.0 => Some(f as i64),
+        KNumber::F64(_) => None,
+    }
 }
 
 pub struct Deserializer(KValue);
@@ -96,18 +123,18 @@ impl<'de> de::Deserializer<'de> for Deserializer {
         }
     }
 
-    deserialize_number!(deserialize_i8, i8, visit_i8);
-    deserialize_number!(deserialize_i16, i16, visit_i16);
-    deserialize_number!(deserialize_i32, i32, visit_i32);
-    deserialize_number!(deserialize_i64, i64, visit_i64);
+    deserialize_integer!(deserialize_i8, i8, visit_i8);
+    deserialize_integer!(deserialize_i16, i16, visit_i16);
+    deserialize_integer!(deserialize_i32, i32, visit_i32);
+    deserialize_integer!(deserialize_i64, i64, visit_i64);
     try_deserialize_number!(deserialize_i128);
-    deserialize_number!(deserialize_u8, u8, visit_u8);
-    deserialize_number!(deserialize_u16, u16, visit_u16);
-    deserialize_number!(deserialize_u32, u32, visit_u32);
+    deserialize_integer!(deserialize_u8, u8, visit_u8);
+    deserialize_integer!(deserialize_u16, u16, visit_u16);
+    deserialize_integer!(deserialize_u32, u32, visit_u32);
     try_deserialize_number!(deserialize_u64);
     try_deserialize_number!(deserialize_u128);
-    deserialize_number!(deserialize_f32, f32, visit_f32);
-    deserialize_number!(deserialize_f64, f64, visit_f64);
+    deserialize_float!(deserialize_f32, f32, visit_f32);
+    deserialize_float!(deserialize_f64, f64, visit_f64);
 
     fn deserialize_char<V>(self, visitor: V) -> Result<V::Value>
     where
@@ -330,10 +357,9 @@ fn values_to_bytes(values: &[KValue]) -> Result<Vec<u8>> {
     values
         .iter()
         .map(|value| match value {
-            #[allow(clippy::unnecessary_fallible_conversions)]
-            KValue::Number(n) => match u8::try_from(n) {
-                Ok(x) => Ok(x),
-                Err(_) => Err(Error::OutOfU8RangeNumber(*n)),
+            KValue::Number(n) => match number_to_i64(*n).and_then(|i| u8::try_from(i).ok()) {
+                Some(x) => Ok(x),
+                None => Err(Error::OutOfU8RangeNumber(*n)),
             },
             other => unsupported_error("number", other),
         })
@@ -544,6 +570,47 @@ mod tests {
         assert!(!from_koto_value::<bool>(false).unwrap());
         assert_eq!('a', from_koto_value("a").unwrap());
         assert_eq!("xyz", from_koto_value::<String>("xyz").unwrap());
+    }
+
+    #[test]
+    fn out_of_range_numbers_are_errors() {
+        assert!(from_koto_value::<u8>(300).is_err());
+        assert!(from_koto_value::<u8>(-1).is_err());
+        assert!(from_koto_value::<i8>(-129).is_err());
+        assert!(from_koto_value::<i64>(1e300).is_err());
+        assert!(from_koto_value::<u64>(f64::NAN).is_err());
+        assert!(from_koto_value::<u64>(-1).is_err());
+        assert_eq!(255_u8, from_koto_value(255).unwrap());
+        assert_eq!(-128_i8, from_koto_value(-128).unwrap());
+        assert_eq!(1_i64, from_koto_value(1.5).unwrap());
+        assert_eq!(i64::MAX as u64, from_koto_value::<u64>(i64::MAX).unwrap());
+        let bytes = KValue::Tuple(vec![1.into(), 300.into()].into());
+        assert!(from_koto_value::<serde_bytes_like::Bytes>(bytes).is_err());
+    }
+
+    mod serde_bytes_like {
+        use serde::de::{Deserialize, Deserializer, Visitor};
+        use std::fmt;
+
+        /// Asks the deserializer for bytes, like `serde_bytes::ByteBuf` does
+        #[derive(Debug)]
+        pub struct Bytes(#[allow(dead_code)] pub Vec<u8>);
+
+        impl<'de> Deserialize<'de> for Bytes {
+            fn deserialize<D: Deserializer<'de>>(d: D) -> Result<Self, D::Error> {
+                struct V;
+                impl<'de> Visitor<'de> for V {
+                    type Value = Bytes;
+                    fn expecting(&self, f: &mut fmt::Formatter) -> fmt::Result {
+                        f.write_str("bytes")
+                    }
+                    fn visit_byte_buf<E>(self, v: Vec<u8>) -> Result<Bytes, E> {
+                        Ok(Bytes(v))
+                    }
+                }
+                d.deserialize_byte_buf(V)
+            }
+        }
     }
 
     #[test]
